@@ -228,8 +228,13 @@ func main() {
 			}
 		}
 		if sc.inconcl != "" {
+			// its trace is still a valid prefix (the end-of-scenario obligations hang on h_quiet / h_end, which it lacks)
 			res.Inconclusive = append(res.Inconclusive, fmt.Sprintf("scenario %d (%s): %s", sc.idx, sc.kind, sc.inconcl))
 			res.Counters["inconclusive:"+sc.kind]++
+			for _, r := range sc.events() {
+				r["sc"] = sc.idx
+				_ = enc.Encode(r)
+			}
 
 			continue
 		}
